@@ -57,6 +57,33 @@ def extractFirst (f : Flags) (s : Str) : Res :=
 
 end Spec
 
+/-- the separator set of split.rs (`WHITESPACE`, extracted from the source) -/
+def implSep (c : Char) : Bool := Gen.whitespace.contains c
+def implDropSeps : Str → Str
+  | [] => []
+  | c :: r => if implSep c then implDropSeps r else c :: r
+
+theorem implSep_sound : ∀ c ∈ Gen.whitespace, isSep c = true := by decide
+theorem implSep_complete : ∀ c ∈ [' ', '\t', '\n', '\r'], Gen.whitespace.contains c = true := by decide
+/-- the code's separator set is systemd's WHITESPACE -/
+@[simp] theorem implSep_eq (c : Char) : implSep c = isSep c := by
+  unfold implSep
+  cases h : isSep c with
+  | true =>
+    apply implSep_complete
+    simp only [isSep, Bool.or_eq_true, beq_iff_eq] at h
+    rcases h with ((h | h) | h) | h <;> subst h <;> simp
+  | false =>
+    cases h2 : Gen.whitespace.contains c with
+    | false => rfl
+    | true =>
+      have := implSep_sound c (by simpa using h2)
+      rw [h] at this; exact absurd this (by simp)
+@[simp] theorem implDropSeps_eq (s : Str) : implDropSeps s = dropSeps s := by
+  induction s with
+  | nil => rfl
+  | cons c r ih => simp [implDropSeps, dropSeps, ih]
+
 namespace Impl
 
 /-- SplitWord::next after the D3 repair (an explicitly started word is returned even when empty).
@@ -72,7 +99,7 @@ def word (q : Option Char) (bs : Bool) (acc : Str) (s : Str) : Res :=
   | false, none, c :: r =>
       if isQuote c then word (some c) false acc r
       else if c == '\\' then word none true acc r
-      else if isSep c then .word acc.reverse (dropSeps r)
+      else if implSep c then .word acc.reverse (implDropSeps r)
       else word none false (c :: acc) r
   | false, some q, c :: r =>
       if c == q then word none false acc r
@@ -84,7 +111,7 @@ decreasing_by
   all_goals first | omega | (have := decode_length h; simp at this; omega)
 
 def next (s : Str) : Res :=
-  match dropSeps s with
+  match implDropSeps s with
   | [] => .noWord
   | c :: r => word none false [] (c :: r)
 
